@@ -102,6 +102,16 @@ func init() {
 						}
 					}
 				}
+				if eco == "github" {
+					// date-shaped inputs (4-digit first component) among themselves: integer tuples,
+					// not calendar arithmetic (the parser accepts every day 1..31 in every month)
+					ds := []string{"{D}{d}{d}{d}.{D}.{D}", "{D}{d}{d}{d}.1{[0-2]}.{[12]}{d}", "{D}{d}{d}{d}.{D}.3{[01]}", "{D}{d}{d}{d}.{D}.{[12]}{d}", "v{D}{d}{d}{d}.1{[0-2]}.{D}"}
+					for _, a := range ds {
+						for _, b := range ds {
+							out = append(out, &Config{ID: fmt.Sprintf("C03/num/github/date/%s|%s", a, b), Pkg: zzhPkg, Func: "C03NumIf", Args: []ArgSpec{ArgStr(eco), ArgTmpl(a), ArgTmpl(b)}})
+						}
+					}
+				}
 				ms := markers[eco]
 				// every numbered marker also with an eight-digit number (date-style snapshots)
 				withLong := func(in []string) []string {
@@ -129,7 +139,7 @@ func init() {
 			return out
 		},
 		Bounds: func(tier string) string {
-			return "arities per DESIGN B.2; digit-run lengths {1,2,3,5,10} (thorough adds 4,7,9 and mixed lengths); values <= 2^31 without leading zeros; marker spellings per DESIGN B.3 on 2-4 base shapes, numbered markers with one digit and with eight digits, and the markers in upper case for the 14 ecosystems that accept them"
+			return "arities per DESIGN B.2; digit-run lengths {1,2,3,5,10} (thorough adds 4,7,9 and mixed lengths); values <= 2^31 without leading zeros; github date-shaped inputs (YYYY.M.D, months 1-12, days 1-31) among themselves; marker spellings per DESIGN B.3 on 2-4 base shapes, numbered markers with one digit and with eight digits, and the markers in upper case for the 14 ecosystems that accept them"
 		},
 		Assume: []string{"marker direction table and arity table are spec-side (DESIGN B.2, B.3)"},
 	})
@@ -301,6 +311,32 @@ func init() {
 							for _, y := range b2 {
 								for _, p := range p2 {
 									out = append(out, &Config{ID: fmt.Sprintf("C02/and2/%s/%q/%s %s/%s|%s|%s", eco, sep, opp[0], opp[1], x, y, p), Pkg: zzhPkg, Func: "C02And2",
+										Args: []ArgSpec{ArgStr(eco), ArgStr(opp[0]), ArgTmpl(x), ArgStr(sep), ArgStr(opp[1]), ArgTmpl(y), ArgTmpl(p)}})
+								}
+							}
+						}
+					}
+				}
+				// the same comparator twice with bounds from the part-combination templates (a bound that
+				// lacks a part next to one that carries it: `>=1.5 >=1.5-2`), probes likewise
+				if ph := rangeSafe(eco, phaseTemplates(eco, "quick")); len(ph) > 0 && len(spec.ands) > 0 {
+					n3 := 3
+					if tier == "thorough" {
+						n3 = 5
+					}
+					same := [][2]string{{">=", ">="}, {"<=", "<="}, {"=", "="}}
+					if eco == "pypi" {
+						same[2] = [2]string{"==", "=="}
+					}
+					for _, opp := range same {
+						if !has(spec.ops, opp[0]) {
+							continue
+						}
+						for _, x := range thin(ph, n3) {
+							for _, y := range thin(ph, n3) {
+								for _, p := range thin(phaseTemplates(eco, "quick"), n3) {
+									sep := spec.ands[0]
+									out = append(out, &Config{ID: fmt.Sprintf("C02/and2/%s/%q/%s %s/parts/%s|%s|%s", eco, sep, opp[0], opp[1], x, y, p), Pkg: zzhPkg, Func: "C02And2",
 										Args: []ArgSpec{ArgStr(eco), ArgStr(opp[0]), ArgTmpl(x), ArgStr(sep), ArgStr(opp[1]), ArgTmpl(y), ArgTmpl(p)}})
 								}
 							}
